@@ -24,5 +24,8 @@ HARNESSES = [
     H("c19_dump::g_dump_maps_limits_fail", desc="dump: maps and limits copies fail", loops={"MINIDUMP_EXCEPTION": 20, "alloc_from_array": 8}, timeout=2400, est_gb=8, mem_gb=24, tier="thorough"),
     H("c19_dump::g_dump_status_cmdline_fail", desc="dump: status and cmdline copies fail", loops={"MINIDUMP_EXCEPTION": 20, "alloc_from_array": 8}, timeout=2400, est_gb=8, mem_gb=24, tier="thorough"),
     H("c19_dump::g_dump_environ_auxv_fail", desc="dump: environ and auxv copies fail", loops={"MINIDUMP_EXCEPTION": 20, "alloc_from_array": 8}, timeout=2400, est_gb=8, mem_gb=24, tier="thorough"),
+    H("c03_stop::c03_stop_timeout", desc="real stop_process times out: init Ok, one StopProcessFailed soft error, later steps run", timeout=900, est_gb=4),
+    H("c03_stop::c03_stop_stat_unreadable", desc="real stop_process cannot read the state: same", timeout=900, est_gb=4),
+    H("c03_suspend::c03_two_threads_attach_fails_first", desc="attach to one thread fails: soft error, the other threads are still suspended and listed", timeout=1800, est_gb=11, mem_gb=24),
     K("c11_dump_all_best_effort_fail", "byte-level: every best-effort step fails", "thorough"),
 ]
